@@ -34,6 +34,9 @@
 (*                  reward), OptBreak (loop exit: terminal state or step cap), OptCheck   *)
 (*                  (the raise rule); the semi-MDP's accumulation of the discounted      *)
 (*                  return runs along (cum)                                             *)
+(*                  preceded by RunElsewhere when the call history says that the same    *)
+(*                  option object was executed on another MDP (other transitions and      *)
+(*                  rewards) before: every run follows the MDP it is executed on          *)
 (*     trace mode:  the same step / end rules with the choices bound to the events       *)
 (*                  recorded from the real code, then the tally (TrStep, TrEnd, TrFinish)*)
 (*     VARIANT = "intended" is the machine the property demands and the one every         *)
@@ -224,13 +227,13 @@ InitOpt ==
   /\ Mode = "opt" /\ InitCommon
   /\ ovr = {} /\ d = Unset
   /\ cur \in Range(Batch[iid].starts)
-  /\ pc = "run" /\ nst = 0 /\ cum = Zero
+  /\ pc = (IF Batch[iid].prev = 1 THEN "elsewhere" ELSE "run") /\ nst = 0 /\ cum = Zero
 InitTrace ==
   /\ Mode = "trace" /\ iid \in 1..Len(Batch)
   /\ opt = Unset /\ hist = <<>> /\ tally = <<>> /\ fail = "" /\ j = 1 /\ l = 0
   /\ ovr = {} /\ d = Unset
   /\ cur = Batch[iid].s0
-  /\ pc = "run" /\ nst = 0 /\ cum = Zero
+  /\ pc = (IF Batch[iid].prev = 1 THEN "elsewhere" ELSE "run") /\ nst = 0 /\ cum = Zero
 Init == InitAug \/ InitPlan \/ InitOpt \/ InitTrace
 
 \* ---------------------------------------------------------------- augment()
@@ -288,9 +291,21 @@ StepEffect(a, t) ==
   /\ cum' = RAdd(cum, StepReward(M, nst, cur, a, t))
   /\ cur' = t
   /\ nst' = nst + 1
+\* call history: the same option object has been executed on another MDP (M.prevP, M.prevR) before.
+\* Nothing of that run may survive: the machine has no memory of it.
+RunElsewhere ==
+  /\ Mode \in {"opt", "trace"} /\ pc = "elsewhere" /\ pc' = "run"
+  /\ UNCHANGED <<iid, ovr, d, opt, cur, nst, cum, hist, j, l, tally, fail>>
+\* VARIANT "memo" (MC-only demonstration): the termination-augmented MDP of the first execution is reused,
+\* so later runs follow the other MDP's transitions and rewards; expected to violate OptStepsFollowModel /
+\* OptReturnExact
+Dyn(m) == IF Variant = "memo" /\ m.prev = 1 THEN [m EXCEPT !.P = m.prevP, !.R = m.prevR] ELSE m
 OptStep ==
   /\ Mode = "opt" /\ pc = "run" /\ nst < M.lim /\ cur \notin TermSet(M)
-  /\ \E a \in PolSupp(M, cur) : \E t \in Succ(M, cur, a) : StepEffect(a, t)
+  /\ \E a \in PolSupp(M, cur) : \E t \in Succ(Dyn(M), cur, a) :
+        /\ hist' = Append(hist, <<cur, a, t>>)
+        /\ cum' = RAdd(cum, StepReward(Dyn(M), nst, cur, a, t))
+        /\ cur' = t /\ nst' = nst + 1
   /\ UNCHANGED <<iid, pc, ovr, d, opt, j, l, tally, fail>>
 OptBreak ==
   /\ Mode = "opt" /\ pc = "run" /\ (nst = M.lim \/ cur \in TermSet(M))
@@ -335,7 +350,7 @@ TrFinish ==
           /\ UNCHANGED <<iid, ovr, d, opt, cur, nst, cum, hist, j, l, tally, fail>>
      ELSE Reject(IF M.outcome = "dist" THEN "wrong-number-of-simulations" ELSE "raised-without-raising-run")
 
-Next == WarmBase \/ DeriveAnother \/ RequeryFirst \/ AugClass \/ AugSet \/ AugInstantiate \/ PlanStep \/ OptStep \/ OptBreak \/ OptCheck
+Next == RunElsewhere \/ WarmBase \/ DeriveAnother \/ RequeryFirst \/ AugClass \/ AugSet \/ AugInstantiate \/ PlanStep \/ OptStep \/ OptBreak \/ OptCheck
         \/ TrStep \/ TrEnd \/ TrFinish
 Spec == Init /\ [][Next]_vars
 
@@ -433,7 +448,7 @@ OptFirstTerminal ==
 OptWithinLimit ==
   (Mode \in {"opt", "trace"}) => (nst <= M.lim /\ (Mode = "opt" => Len(hist) = nst))
 OptReturnExact ==
-  (Mode \in {"opt", "trace"} /\ MinI(Len(hist), M.hmax) <= 40) => cum = DiscSum(M, hist)     \* (deeper recursion overflows TLC's stack;
+  (Mode \in {"opt", "trace"} /\ MinI(Len(hist), M.hmax) <= 24) => cum = DiscSum(M, hist)     \* (deeper recursion overflows TLC's stack;
                                                                                             \*  longer undiscounted sums are cross-checked outside)
 OptStepsFollowModel ==
   (Mode \in {"opt", "trace"}) =>
